@@ -204,3 +204,62 @@ Example C08_priority_witness :
             RunExamples.arr = (sf, logs, None) /\
     length logs = 8 /\ Forall (fun lg => tl_susp lg = []) logs.
 Proof. exact RunExamples.ex_single_total. Qed.
+
+(* ------------------------------------------------------------------------------------------ *)
+(* priority-pool in the closed loop (Proofs/PriorityPoolRunFacts.v)                              *)
+(* ------------------------------------------------------------------------------------------ *)
+From Eudoxia Require Import Proofs.PriorityPoolRunFacts.
+
+(* priority-pool with multi-operator containers (the configuration it supports, see F10 below), positive pool
+   sizes, arriving pipelines with at least one operator (partial): whatever stops a run is raised inside a
+   container tick or by an ASSIGNED request on an operator that is not assignable ([inner_err]); the scheduler's
+   internal assertion never fires, the Assignment constructor never sees bad arguments and the executor never
+   refuses the scheduler's commands (wrong pool, oversold CPU/RAM, bad suspension, operator count) *)
+Theorem C08_priority_pool_run_errors : forall C np cpu ram arrivals sf logs er,
+  cf_multi C = true -> (0 < cpu)%Z -> (0 < ram)%Q ->
+  (forall k, In k (concat arrivals) -> pd_order (pipe_of (cf_static C) k) <> []) ->
+  sim_run C APriorityPool 0%Z (init_sim C np cpu ram) arrivals = (sf, logs, Some er) ->
+  inner_err er /\
+  er <> EBadPool /\ er <> EOversellCpu /\ er <> EOversellRam /\ er <> EBadSuspend /\ er <> EOpCount /\
+  er <> EBadAssignArgs /\ er <> ESchedAssert.
+Proof. exact pp_run_errors_spelled. Qed.
+Print Assumptions C08_priority_pool_run_errors.
+
+(* priority-pool with multi-operator containers, the CLOSED LOOP: every workload of pipelines built from
+   well-formed DAGs with at least one operator, fresh pipeline ids, every pool count, positive pool sizes, every
+   tick rate, every non-empty timing script: the run reaches its last tick (no scheduler decision is refused, no
+   assertion fires, no container tick raises, however many OOM kills and retries happen on the way) *)
+Theorem C08_priority_pool_runs_to_end : forall C l np cpu ram arrivals,
+  cf_static C = mk_static l -> dags_wf l ->
+  (forall op c, cf_script C op c <> []) -> cf_multi C = true ->
+  (0 < cpu)%Z -> (0 < ram)%Q ->
+  (forall k, In k (concat arrivals) -> pd_order (pipe_of (cf_static C) k) <> []) ->
+  NoDup (concat arrivals) ->
+  exists sf logs,
+    sim_run C APriorityPool 0%Z (init_sim C np cpu ram) arrivals = (sf, logs, None) /\
+    length logs = length arrivals.
+Proof. exact pp_runs_to_end. Qed.
+Print Assumptions C08_priority_pool_runs_to_end.
+
+(* it applies: the workload of C16_retry_after_oom_run (one OOM kill, one retry), any number of ticks *)
+Example C08_priority_pool_runs_to_end_applies : forall n,
+  exists sf logs,
+    sim_run RunExamples.C1 APriorityPool 0%Z (init_sim RunExamples.C1 2 10%Z 10%Q) ([0] :: repeat [] n)
+      = (sf, logs, None) /\ length logs = S n.
+Proof. exact RunExamples.ex_runs_to_end. Qed.
+
+(* F10 (known finding): priority-pool with single-operator containers files whole pipelines as one job; a
+   pipeline with two operators trips the pool's operator-count assertion in the first tick *)
+Example C08_F10_priority_pool_single_operator_mode_refuted :
+  sim_run RunExamples.C2 APriorityPool 0%Z (init_sim RunExamples.C2 2 10%Z 10%Q) [[0]; []; []]
+  = (init_sim RunExamples.C2 2 10%Z 10%Q, [], Some EOpCount).
+Proof. exact RunExamples.F10_single_operator_mode_refuted. Qed.
+
+(* the hypothesis on arriving pipelines is needed: a pipeline without operators, or a pipeline number that
+   does not exist, makes Assignment.__init__ raise on the empty operator list *)
+Example C08_priority_pool_empty_pipeline_refuted :
+  snd (sim_run RunExamples.C3 APriorityPool 0%Z (init_sim RunExamples.C3 2 10%Z 10%Q) [[0]; []; []])
+    = Some EBadAssignArgs /\
+  snd (sim_run RunExamples.C1 APriorityPool 0%Z (init_sim RunExamples.C1 2 10%Z 10%Q) [[5]; []; []])
+    = Some EBadAssignArgs.
+Proof. exact RunExamples.empty_pipeline_refuted. Qed.
